@@ -509,7 +509,7 @@ def rule_quote_regexes(ctx, rule):
     ref_fn = q.func("safely_quote_iter")
     ctx.fn("ural.quote.safely_quote_iter", "ural.quote.safely_quote")
     rets = [r for r in P.flat_rets(ex.function(ref_fn)) if r.kind == "yield"]
-    ctx.require_instances(rule, len(rets), 2, "yields in safely_quote_iter")
+    ctx.require_instances(rule, len(rets), 1, "yields in safely_quote_iter")
     verbatim = 0
     quoted = 0
     for r in rets:
